@@ -314,6 +314,39 @@ func (g *genCtx) graph(depth int, parentMode string) int {
 		_ = i
 		gs.Nodes = append(gs.Nodes, ns)
 	}
+	// non-map outputs (workflow lambdas without branches) and input keys (Graph nodes with a single
+	// data predecessor other than START)
+	for i := range gs.Nodes {
+		ns := &gs.Nodes[i]
+		if wf {
+			hasBranch := false
+			for _, b := range gs.Branches {
+				if b.From == ns.ID {
+					hasBranch = true
+				}
+			}
+			if ns.Sub == 0 && !hasBranch && r.Chance(15, 100) {
+				ns.Leaf = true
+			}
+			continue
+		}
+		preds := map[int]bool{}
+		for _, e := range gs.Edges {
+			if e.To == ns.ID {
+				preds[e.From] = true
+			}
+		}
+		for _, b := range gs.Branches {
+			if has(b.Targets, ns.ID) {
+				preds[b.From] = true
+			}
+		}
+		if len(preds) == 1 && !preds[StartID] && r.Chance(20, 100) {
+			for p := range preds {
+				ns.InKey = p
+			}
+		}
+	}
 	// interrupt sets
 	pb, pa := 15, 15
 	switch r.Intn(6) {
